@@ -413,6 +413,92 @@ def cli_replay_text(text):
     return rep
 
 
+ARGV_HEADS = [['-c'], ['--config'], ['/c'], ['-c', 'cfg.toml'], ['-c', 'Dir/Cfg.toml', 'name', 'from', 'R0'], ['-i'], ['--nocolor'], ['--no-color', '-c'], ['-i', '-c'], ['-v'], ['--help'], ['-C'],
+              ['--nocolor', 'name', 'from', 'R0'], ['-c', 'cfg.toml', 'name', 'from', 'R0']]
+
+
+def fam_argv(sess):
+    """the real main::main from MIR on argument vectors that begin with program options (-c / --config with and without its path, -i,
+    --nocolor, -v, --help and combinations): every path returns an exit code or calls exit; none indexes past the arguments.
+    env::args is the vector, Config::new / Config::from give the default configuration (or fail), the interactive loop and the search
+    itself (exec_search: families e2e_bad / the other properties) are cut"""
+    from mirsym.models_std import Str, Seq, ListIter
+    from mirsym.core import ok, err, UNIT, EnumV, Agg
+    prog = sess.prog
+    fam = 'argv'
+    mainf = prog.find_free('main')
+    sess.bounds[fam] = {'argument vectors': [' '.join(a) for a in ARGV_HEADS]}
+    viol = {}
+    st = {'paths': 0, 'bad': {}}
+    for head in ARGV_HEADS:
+        def models(head=head):
+            argv = ['fselect'] + list(head)
+            from drivers import walker as W_
+            dflt = lambda ctx, a, c: W_.mk_config(prog)
+            return [(r'^(std::env::|env::)?args$', lambda ctx, a, c: ListIter([Str(x) for x in argv]), 'env::args (the argument vector of the scenario)'),
+                    (r'^<(std::env::)?Args as ExactSizeIterator>::len$', lambda ctx, a, c: BitVecVal(len(argv), 64), 'Args::len'),
+                    (r'(^|::)Config::new$', lambda ctx, a, c: ok(dflt(ctx, a, c)), 'Config::new (the default configuration)'),
+                    (r'^<(config::)?Config as (std::default::)?Default>::default$|(^|::)Config::default$', dflt, 'Config::default (every setting unset)'),
+                    (r'(^|::)Config::from$', lambda ctx, a, c: (ctx.ghost.setdefault('config_paths', []).append(a[0]), (ok(dflt(ctx, a, c)) if ctx.decide(ctx.fresh_bool('config_file_readable')) else err(Str('cannot read the configuration file'))))[1], 'Config::from (Ok(default) | Err; the path is recorded)'),
+                    (r'^(std::env::|env::)?var$', lambda ctx, a, c: err(UNIT), 'env::var (unset)'),
+                    (r'(^|::)exec_search$', lambda ctx, a, c: BitVecVal(0, 8), 'cut: exec_search (families e2e_bad and the other properties)'),
+                    (r'(^|::)usage_info$|(^|::)short_usage_info$|(^|::)help_hint$', lambda ctx, a, c: UNIT, 'cut: usage texts'),
+                    (r'^<Stdout as IsTerminal>::is_terminal$|^<Stdin as IsTerminal>::is_terminal$', lambda ctx, a, c: BoolVal(False), 'is_terminal (false)'),
+                    (r'^const (std::process::)?ExitCode::(SUCCESS|FAILURE)$', lambda ctx, a, c: ('exitcode', BitVecVal(0 if c.endswith('SUCCESS') else 1, 8)), 'ExitCode::SUCCESS / FAILURE'),
+                    (r'^From/Into <PathBuf as From<.*>>::from$|^<PathBuf as From<.*>>::from$|^(std::path::)?PathBuf::from$', lambda ctx, a, c: ('path', a[0]), 'PathBuf::from (opaque)'),
+                    (r'^(std::process::)?ExitCode::from$|^<(std::process::)?ExitCode as From<u8>>::from$', lambda ctx, a, c: ('exitcode', a[0]), 'ExitCode::from'),
+                    (r'DefaultEditor::new$|Editor::.*$|rustyline::', lambda ctx, a, c: (_ for _ in ()).throw(P.Unmodelled('interactive mode (cut)')), 'cut: interactive mode')]
+        ex = sess.executor(models(), unwind=40)
+
+        def run(ctx):
+            return ctx.call_fn(mainf, [])
+
+        def on_path(ctx, out, head=head):
+            st['paths'] += 1
+            nm = '%s `fselect %s`' % (fam, ' '.join(head))
+            if out[0] in ('ret', 'exit'):
+                # the configuration file that is opened is the one that was named, letter for letter
+                for pth in ctx.ghost.get('config_paths', []):
+                    inner = ctx.deref(pth[1]) if isinstance(pth, tuple) else None
+                    txt = inner.s if hasattr(inner, 's') else None
+                    if txt is not None and len(head) > 1 and txt != head[1] and not viol.get('argv/config-path'):
+                        viol['argv/config-path'] = True
+
+                        def rep2(head=head):
+                            import tempfile, shutil, subprocess, os
+                            exe = common.native_binary()
+                            d = tempfile.mkdtemp(prefix='verif-c10a-', dir=common.SCRATCH_ROOT)
+                            try:
+                                os.makedirs(os.path.join(d, 'Dir')); open(os.path.join(d, 'Dir', 'Cfg.toml'), 'w').write('is_doc = [".zzz"]\n'); open(os.path.join(d, 'a.zzz'), 'w').write('x')
+                                r = subprocess.run([exe, '-c', os.path.join(d, 'Dir', 'Cfg.toml'), 'is_doc from %s where name = a.zzz' % d], env={'PATH': os.environ['PATH'], 'HOME': d, 'XDG_CONFIG_HOME': os.path.join(d, 'x')}, stdout=subprocess.PIPE, stderr=subprocess.PIPE, timeout=10)
+                                return r.stdout.decode().strip() != 'true', 'fselect -c <tmp>/Dir/Cfg.toml (is_doc = [".zzz"]) is_doc of a.zzz -> %r %s' % (r.stdout.decode().strip(), r.stderr.decode()[:120])
+                            finally:
+                                shutil.rmtree(d, ignore_errors=True)
+                        sess.violated(nm, 'argv/config-path', 'the configuration file opened is %r, the one named is %r' % (txt, head[1]), {'argv': head}, rep2, fam)
+                return
+            if out[0] == 'panic':
+                where_ = str(out[1]).split('[in ')[-1].rstrip(']').replace(' ', ':') if '[in ' in str(out[1]) else 'x'
+                role = 'argv/panic/' + where_
+                if viol.get(role):
+                    return
+                viol[role] = True
+
+                def rep(head=head):
+                    exe = common.native_binary()
+                    r = common.run_cli(exe, list(head), {'R0': {'kind': 'dir'}, 'R0/a': {'size': 1}, 'cfg.toml': {'size': 0}}, timeout=5, stdin=b'')
+                    return r['status'] not in (0, 1, 2), 'fselect %s -> status %s %s' % (' '.join(head), r['status'], r['stderr'].strip()[:160])
+                sess.violated(nm, role, str(out[1])[:200], {'argv': head}, rep, fam)
+                return
+            if out[0] == 'unmodelled' and 'interactive' in str(out[1]):
+                return          # the path enters the interactive loop: cut
+            st['bad'].setdefault(str(out)[:200], head)
+        ex.explore(run, on_path)
+    for what, head in list(st['bad'].items())[:5]:
+        sess.inconclusive('%s `fselect %s`' % (fam, ' '.join(head)), what, fam)
+    if not viol and not st['bad']:
+        sess.discharged('argv: %d argument vectors of program options: an exit code on every path, no index past the arguments' % len(ARGV_HEADS), family=fam, queries=st['paths'])
+
+
 def main(sess):
     sess.engines = ['mirsym (MIR symbolic execution) + z3']
     sess.assumptions += [
@@ -430,6 +516,8 @@ def main(sess):
         fam_literals(sess)
     if not only or 'e2e_bad' in only:
         fam_e2e_bad(sess)
+    if not only or 'argv' in only:
+        fam_argv(sess)
     if not only or 'eval' in only:
         # evaluation-time crashes: arithmetic on arbitrary operands (driver of C15)
         from drivers import c15, c16
